@@ -21,12 +21,12 @@ func (vc *VC) zeroValue(t types.Type) (Term, error) {
 		vc.DeclareFun(name, nil, srt)
 		return Term{name, srt}, nil
 	}
-	if _, ok := types.Unalias(t).(*types.TypeParam); ok {
+	if isAbstractTP(t) {
 		name := "zero!" + sanitize(string(srt))
 		vc.DeclareFun(name, nil, srt)
 		return Term{name, srt}, nil
 	}
-	switch u := t.Underlying().(type) {
+	switch u := U(t).(type) {
 	case *types.Basic:
 		switch {
 		case srt == SBool:
@@ -117,7 +117,7 @@ func (vc *VC) loadRaw(st *State, addr Term, t types.Type) (Term, error) {
 		return Term{}, err
 	}
 	if vc.tt.isAggregate(t) {
-		switch u := t.Underlying().(type) {
+		switch u := U(t).(type) {
 		case *types.Struct:
 			var args []Term
 			for i := 0; i < u.NumFields(); i++ {
@@ -160,7 +160,7 @@ func (vc *VC) storeAt(st *State, addr Term, t types.Type, v Term) error {
 		return err
 	}
 	if vc.tt.isAggregate(t) {
-		switch u := t.Underlying().(type) {
+		switch u := U(t).(type) {
 		case *types.Struct:
 			for i := 0; i < u.NumFields(); i++ {
 				fs, err := vc.tt.SortOf(u.Field(i).Type())
@@ -192,7 +192,7 @@ func (vc *VC) storeAt(st *State, addr Term, t types.Type, v Term) error {
 // leafSorts lists the scalar sorts that occur in the layout of t.
 func (vc *VC) leafSorts(t types.Type, out map[Sort]bool) {
 	if vc.tt.isAggregate(t) {
-		switch u := t.Underlying().(type) {
+		switch u := U(t).(type) {
 		case *types.Struct:
 			for i := 0; i < u.NumFields(); i++ {
 				vc.leafSorts(u.Field(i).Type(), out)
@@ -215,7 +215,7 @@ func (vc *VC) allocObject(st *State, t types.Type) Term {
 	st.assume(Ge(id, IntLit(1)))
 	if t != nil {
 		st.assume(Eq(App(SInt, "dyn", r), IntLit(int64(vc.tt.TID(t)))))
-		if _, isStruct := t.Underlying().(*types.Struct); isStruct {
+		if _, isStruct := U(t).(*types.Struct); isStruct {
 			st.assume(Eq(App(SInt, "otype", id), IntLit(int64(vc.tt.TID(t)))))
 		}
 	} else {
